@@ -62,7 +62,7 @@ def spec(tier, seed):
         hs.append(Harness(name, obligation=obl, encodes=ENC, bounds=B, timeout_s=900 if grp == "q" else 1800,
                           tiers=("quick", "thorough") if grp == "q" else ("thorough",)))
     hs.append(Harness("c01_vacuity_witness", expect_fail=True, obligation="twin: file model write reachable", timeout_s=120))
-    u = Unit("seglog_c01", generate, hs, kani_flags=("-Z", "stubbing"), jobs=3, workers=4, crate_subdir="seglog", harness_prefix="verif::c01::", playback=False)
+    u = Unit("seglog_c01", generate, hs, kani_flags=("-Z", "stubbing"), jobs=3, workers=4, crate_subdir="seglog", harness_prefix="verif::c01::", playback=False, quick_extra=2)
     return PropSpec("C01", [u], native_replay=native_replay,
                     assumptions=["file model: POSIX regular file, write(2) advances the cursor, pwrite does not; no short writes / IO errors",
                                  "CRC replaced by a GF(2)-linear fold (CRC is C17's subject)", "ReadError::Io / WriteError::Io carry a unit payload"],
